@@ -196,6 +196,12 @@ def mkcase(rng, lat, lon, dist_nm=None, order=None):
         # value for the older one (or negative for both) - `t or default` / `t > 0` tests are wrong there
         sh = max(te, to) if rng.random() < 0.6 else max(te, to) + rng.choice((0.25, 7, 1000.5))
         c["te"], c["to"] = te - sh, to - sh
+    elif c["dt"] is False and o != "=" and rng.random() < 0.04:
+        # nanosecond counters: one stamp a Python int, the other a float, one tick apart above 2**53 - Python compares int and
+        # float exactly; packing both into one float64 array (np.argmax([t1, t0])) makes them equal
+        big = 17 * 10 ** 17
+        c["te"], c["to"] = (big + 1, float(big)) if o == "e" else (float(big), big + 1)
+        c["mixed_huge"] = 1
     return c
 
 
